@@ -61,7 +61,7 @@ EXT_FOR = {
 TARGET_STATES = ["absent", "file", "empty_folder", "nonempty_folder"]
 FLAGS = ["unset", "false", "true"]
 MATRIX_FAULTS = ["none", "plugin_entry", "open_fail_1", "open_fail_2", "torn_crash_1"]
-RESULT_NAMES = ["fit", "fit2", "fi", "fit_run_b", "fit_run_0000", "a_run_", None]
+RESULT_NAMES = ["fit", "fit2", "fi", "refit", "fit_run_b", "fit_run_0000", "a_run_", None]
 RUN_PATTERN = re.compile(r".+_run_\d{4}$")
 
 MODEL_YML = """
@@ -106,6 +106,8 @@ def generate(rng: random.Random, tier: str) -> dict:
     n = rng.randint(5, 25)
     fault_free = rng.random() < 0.3
     names = rng.sample(RESULT_NAMES, k=rng.randint(2, 4))
+    if "fit" not in names and rng.random() < 0.7:
+        names[0] = "fit"  # most collisions are with the plain name
     for _ in range(n):
         r = rng.random()
         fault = None if fault_free else gen_fault(rng)
